@@ -6,7 +6,15 @@ import (
 	"bytes"
 	"encoding/hex"
 	"fmt"
+	"reflect"
 	"sync/atomic"
+
+	"github.com/consensys/gnark-crypto/ecc/bls12-381/bandersnatch"
+	bls12381fr "github.com/consensys/gnark-crypto/ecc/bls12-381/fr"
+	grumpkinfr "github.com/consensys/gnark-crypto/ecc/grumpkin/fr"
+	grumpkinmimc "github.com/consensys/gnark-crypto/ecc/grumpkin/fr/mimc"
+	grumpkinpolynomial "github.com/consensys/gnark-crypto/ecc/grumpkin/fr/polynomial"
+	grumpkinposeidon2 "github.com/consensys/gnark-crypto/ecc/grumpkin/fr/poseidon2"
 
 	bls12377fr "github.com/consensys/gnark-crypto/ecc/bls12-377/fr"
 	bls12377sis "github.com/consensys/gnark-crypto/ecc/bls12-377/fr/sis"
@@ -30,6 +38,38 @@ func c18SliceOf[T any](x T, n int) []T {
 
 func c18Clone[T any](s []T) []T { return append([]T(nil), s...) }
 
+// c18Pick: the value of a size parameter for the shape of the line: shapes 0 and 1 are the two smallest arities of the
+// family, 2 a large one, every other shape draws at random
+func c18Pick(shape, s0, s1, s2 int, random func() int) int {
+	switch shape {
+	case 0:
+		return s0
+	case 1:
+		return s1
+	case 2:
+		return s2
+	}
+	return random()
+}
+
+// c18FillFp sets every (nested) field of type t below v with set
+func c18FillFp(v reflect.Value, t reflect.Type, set func(v reflect.Value)) {
+	if v.Type() == t {
+		set(v)
+		return
+	}
+	switch v.Kind() {
+	case reflect.Struct:
+		for i := 0; i < v.NumField(); i++ {
+			c18FillFp(v.Field(i), t, set)
+		}
+	case reflect.Array:
+		for i := 0; i < v.Len(); i++ {
+			c18FillFp(v.Index(i), t, set)
+		}
+	}
+}
+
 func c18Err(err error) string {
 	if err == nil {
 		return ":ok"
@@ -46,10 +86,10 @@ func c18Err(err error) string {
 // with cap == len and once from an equal slice whose backing array continues with other bytes; the outcome (n, err,
 // digest) must be a function of the bytes of the argument only.
 func c18HashMaker(id ghash.Hash, elemSize int, elem func(r *rng) []byte, misSized bool) c18Maker {
-	return func(r *rng) *c18Sess {
+	return func(r *rng, shape int) *c18Sess {
 		h := id.New()
 		bs := h.BlockSize()
-		if misSized && r.intn(4) == 0 {
+		if misSized && shape > 2 && r.intn(4) == 0 {
 			var msg []byte
 			for i := 1 + r.intn(2); i > 0; i-- {
 				msg = append(msg, elem(r)...)
@@ -80,12 +120,12 @@ func c18HashMaker(id ghash.Hash, elemSize int, elem func(r *rng) []byte, misSize
 			}
 			return s
 		}
-		nblocks := r.intn(5)
+		nblocks := c18Pick(shape, 0, 1, 9, func() int { return r.intn(5) }) // the empty message and one block first
 		var msg []byte
 		for i := 0; i < nblocks*bs/elemSize; i++ {
 			msg = append(msg, elem(r)...)
 		}
-		if elemSize == bs && nblocks == 0 && r.coin() {
+		if elemSize == bs && nblocks == 0 && shape != 0 && r.coin() {
 			// a single short value (left-padded by the hashers)
 			msg = append(msg, elem(r)[bs-1-r.intn(bs-1):]...)
 		}
@@ -111,12 +151,12 @@ var c18AliasCounter atomic.Uint64
 // variant 1: the slice returned by Sum is the live state: scribbling on it changes what the next Sum returns
 // variant 2: same through State()
 func c18MDMaker(newCompressor func() ghash.Compressor, elemSize int, elem func(r *rng) []byte) c18Maker {
-	return func(r *rng) *c18Sess {
+	return func(r *rng, shape int) *c18Sess {
 		variant := r.intn(3)
 		f := newCompressor()
 		iv := elem(r)
 		var msg []byte
-		for i := 1 + r.intn(3); i > 0; i-- {
+		for i := c18Pick(shape, 1, 0, 6, func() int { return 1 + r.intn(3) }); i > 0; i-- {
 			msg = append(msg, elem(r)...)
 		}
 		h := ghash.NewMerkleDamgardHasher(f, iv)
@@ -170,7 +210,7 @@ func c18MDMaker(newCompressor func() ghash.Compressor, elemSize int, elem func(r
 func c18SisMaker[E any, R interface{ Hash(v, res []E) error }](
 	newR func(seed int64, logTwoDegree, logTwoBound, maxNb int) (R, error),
 	rnd func(r *rng) E, params [][2]int) c18Maker {
-	return func(r *rng) *c18Sess {
+	return func(r *rng, shape int) *c18Sess {
 		p := params[r.intn(len(params))]
 		degree := 1 << p[0]
 		maxNb := degree * (1 + r.intn(3))
@@ -178,10 +218,12 @@ func c18SisMaker[E any, R interface{ Hash(v, res []E) error }](
 		if err != nil {
 			panic(err)
 		}
-		n := maxNb - r.intn(3)
-		if r.intn(4) == 0 {
-			n = 1 + r.intn(maxNb)
-		}
+		n := c18Pick(shape, 1, 2, maxNb, func() int {
+			if r.intn(4) == 0 {
+				return 1 + r.intn(maxNb)
+			}
+			return maxNb - r.intn(3)
+		})
 		v := make([]E, n)
 		for i := range v {
 			v[i] = rnd(r)
@@ -220,4 +262,129 @@ func init() {
 		func(r *rng) []byte { var e babybear.Element; e.SetUint64(r.u64()); b := e.Bytes(); return b[:] }, false)
 	c18Makers["poseidon2/goldilocks"] = c18HashMaker(ghash.POSEIDON2_GOLDILOCKS, goldilocks.Bytes,
 		func(r *rng) []byte { var e goldilocks.Element; e.SetUint64(r.u64()); b := e.Bytes(); return b[:] }, false)
+}
+
+// the fresh-process sessions, by "<global>/<package>". These functions only build closures (no library call): they are
+// used during the initialisation of the package-level variables, see c18FreshEarly.
+var c18FreshTables = []func() map[string]c18FreshMaker{
+	c18FreshTable_bn254, c18FreshTable_bls12_377, c18FreshTable_bls12_381, c18FreshTable_bls24_315, c18FreshTable_bls24_317,
+	c18FreshTable_bw6_633, c18FreshTable_bw6_761, c18FreshTableExtra,
+}
+
+func c18FreshLookup(global, pkg string) c18FreshMaker {
+	for _, f := range c18FreshTables {
+		if mk := f()[global+"/"+pkg]; mk != nil {
+			return mk
+		}
+	}
+	return nil
+}
+
+func c18FreshTableExtra() map[string]c18FreshMaker {
+	t := map[string]c18FreshMaker{}
+	// ---- `C18 fresh`: lazily initialised globals of the packages outside the per-curve template --------------------
+	smallP2 := func(id ghash.Hash, elem func(r *rng) []byte, params func() any, direct func() ghash.StateStorer) c18FreshMaker {
+		return func(r *rng) []func() string {
+			var msg []byte
+			for i := 2 * (1 + r.intn(3)); i > 0; i-- {
+				msg = append(msg, elem(r)...)
+			}
+			return []func() string{
+				func() string { h := id.New(); h.Write(msg); return hex.EncodeToString(h.Sum(nil)) },
+				func() string { return deepHash(params()) },
+				func() string { h := direct(); h.Write(msg); return hex.EncodeToString(h.Sum(nil)) },
+			}
+		}
+	}
+	kb := func(r *rng) []byte { var e koalabear.Element; e.SetUint64(r.u64()); b := e.Bytes(); return b[:] }
+	bb := func(r *rng) []byte { var e babybear.Element; e.SetUint64(r.u64()); b := e.Bytes(); return b[:] }
+	gl := func(r *rng) []byte { var e goldilocks.Element; e.SetUint64(r.u64()); b := e.Bytes(); return b[:] }
+	gk := func(r *rng) []byte {
+		var e grumpkinfr.Element
+		e.SetBigInt(r.bigBits(320))
+		b := e.Bytes()
+		return b[:]
+	}
+	t["poseidon2/koalabear"] = smallP2(ghash.POSEIDON2_KOALABEAR, kb, func() any { return koalabearposeidon2.GetDefaultParameters() }, koalabearposeidon2.NewMerkleDamgardHasher)
+	t["poseidon2/babybear"] = smallP2(ghash.POSEIDON2_BABYBEAR, bb, func() any { return babybearposeidon2.GetDefaultParameters() }, babybearposeidon2.NewMerkleDamgardHasher)
+	t["poseidon2/goldilocks"] = smallP2(ghash.POSEIDON2_GOLDILOCKS, gl, func() any { return goldilocksposeidon2.GetDefaultParameters() }, goldilocksposeidon2.NewMerkleDamgardHasher)
+	t["poseidon2/grumpkin"] = smallP2(ghash.POSEIDON2_GRUMPKIN, gk, func() any { return grumpkinposeidon2.GetDefaultParameters() }, grumpkinposeidon2.NewMerkleDamgardHasher)
+	t["mimc/grumpkin"] = func(r *rng) []func() string {
+		var msg []byte
+		for i := 1 + r.intn(3); i > 0; i-- {
+			msg = append(msg, gk(r)...)
+		}
+		return []func() string{
+			func() string { h := ghash.MIMC_GRUMPKIN.New(); h.Write(msg); return hex.EncodeToString(h.Sum(nil)) },
+			func() string { d, err := grumpkinmimc.Sum(msg); return hex.EncodeToString(d) + c18Err(err) },
+			func() string {
+				h := grumpkinmimc.NewMiMC()
+				h.Write(msg[:grumpkinfr.Bytes])
+				return hex.EncodeToString(h.Sum(nil))
+			},
+			func() string { c := grumpkinmimc.GetConstants(); return deepHash(&c) },
+		}
+	}
+	t["lagrange/grumpkin"] = func(r *rng) []func() string {
+		mk := func(n int) func() string {
+			v := make([]grumpkinfr.Element, n)
+			for i := range v {
+				v[i].SetBigInt(r.bigBits(320))
+			}
+			return func() string {
+				p := grumpkinpolynomial.InterpolateOnRange(v)
+				h := deepHash(&p)
+				for i := range p {
+					p[i].SetUint64(0xdead)
+				}
+				return h
+			}
+		}
+		return []func() string{mk(5), mk(5), mk(2), mk(9), mk(1), mk(5)}
+	}
+	t["edwards/bandersnatch"] = func(r *rng) []func() string {
+		re := func() (e bls12381fr.Element) { e.SetBigInt(r.bigBits(320)); return }
+		p1 := bandersnatch.PointAffine{X: re(), Y: re()}
+		p2 := bandersnatch.PointAffine{X: re(), Y: re()}
+		k := r.bigBits(90)
+		kbig := r.bigBits(250) // long enough for the GLV decomposition
+		ye := re()
+		yb := ye.Bytes()
+		return []func() string{
+			func() string { p := bandersnatch.GetEdwardsCurve(); return deepHash(&p) },
+			func() string {
+				var q bandersnatch.PointAffine
+				q.Add(&p1, &p2)
+				return deepHash(&q) + boolStr(p1.IsOnCurve())
+			},
+			func() string {
+				var q bandersnatch.PointAffine
+				q.ScalarMultiplication(&p1, kbig)
+				return deepHash(&q)
+			},
+			func() string {
+				var a, b bandersnatch.PointExtended
+				a.FromAffine(&p1)
+				b.FromAffine(&p2)
+				a.Add(&a, &b)
+				b.ScalarMultiplication(&b, k)
+				return deepHash(&a) + deepHash(&b)
+			},
+			func() string {
+				var a, b bandersnatch.PointProj
+				a.FromAffine(&p1)
+				b.FromAffine(&p2)
+				a.Add(&a, &b)
+				b.MixedAdd(&b, &p1)
+				b.ScalarMultiplication(&b, kbig)
+				return deepHash(&a) + deepHash(&b)
+			},
+			func() string {
+				var q bandersnatch.PointAffine
+				_, err := q.SetBytes(yb[:])
+				return deepHash(&q) + c18Err(err) + boolStr(q.IsOnCurve())
+			},
+		}
+	}
+	return t
 }
